@@ -15,7 +15,9 @@ RULE = (
     "fraction num/den) interleaved, requests non-decreasing within the published range, plus out-of-range "
     "requests (before first / after newest). Reference = definition evaluated on the complete history "
     "(never evicts). non-trivial = >=4 publications, >=1 request strictly inside an interval and >=1 request "
-    "made after an earlier request had advanced past a publication (eviction happened). distinct = JSON."
+    "made after an earlier request had advanced past a publication (eviction happened). Part backlog: bursts "
+    "of 20-70 publications buffered before the target asks (fast source, slow target), requests on any "
+    "buffered publication or interval. distinct = JSON."
 )
 ASSUMPTIONS = [
     "values are finite floats with |v| <= 1e6; linear interpolation compared with tolerance 1e-12*max|v|",
@@ -159,5 +161,33 @@ def case_st(draw, max_ops=30):
     return {"adapter": draw(adapter_st), "grid": draw(st.booleans()), "ops": ops}
 
 
+@st.composite
+def backlog_case(draw):
+    """fast source / slow target: bursts of 20-70 publications are buffered before the target asks, and the
+    requests pick any of the buffered intervals (exactly on publications as often as strictly inside)"""
+    ops = []
+
+    def burst():
+        gap = draw(st.sampled_from([1, 7, 60, 1440]))
+        v = draw(st.integers(-500, 500))
+        for k in range(draw(st.integers(20, 70))):
+            ops.append(["push", gap + (k % 3 if draw(st.booleans()) else 0), float(v + 3 * k + (k % 5))])
+
+    burst()
+    for _ in range(draw(st.integers(2, 14))):
+        k = draw(st.integers(0, 9))
+        if k == 0:
+            burst()
+        elif k == 1:
+            ops.append(draw(out_st))
+        else:
+            num, den = draw(st.one_of(st.sampled_from([(0, 1), (1, 1)]), frac_st))
+            ops.append(["pull", draw(st.integers(0, 70)), num, den])
+    return {"adapter": draw(adapter_st), "grid": draw(st.booleans()), "ops": ops}
+
+
 def parts():
-    return [Part("histories", check, strategy=case_st(), strategy_thorough=case_st(max_ops=80), budget={"quick": 2400, "thorough": 80000}, fuzz={"thorough": 10000})]
+    return [
+        Part("histories", check, strategy=case_st(), strategy_thorough=case_st(max_ops=80), budget={"quick": 2400, "thorough": 80000}, fuzz={"thorough": 10000}),
+        Part("backlog", check, strategy=backlog_case(), budget={"quick": 300, "thorough": 12000}, shrink_budget=150),
+    ]
